@@ -146,6 +146,15 @@ check('C12',
       'Faults = WorkflowException from the simulated device before it acts; broadcast frames outside the fault alphabet; logical request = attempts of one (light, op) within one VM instruction.',
       'DESIGN.md C12')
 
+check('C13',
+      'explicit-state BFS to a fixpoint over the real LightSet with canonical-state de-duplication, reference directory and structural invariants in every state; exhaustive SortedList probes and iteration systems',
+      'Events per state: 125 population snapshots (names a,b,c x groups g,h x locations p,q x absent), failed discovery, two time advances, expire, refresh. Quick: names a,b '
+      'to a fixpoint plus a,b,c to depth 4 (~460k transitions); thorough: a,b,c to the fixpoint (14 173 states, 1.84M transitions, depth 8). Every state is compared with a '
+      'reference directory and the invariants of the property. SortedList: every subset of 6 names x 13 probes for next/prev/first/last/has, and every (list<=5, cursor) '
+      'iteration under <=2 (thorough 3) interleaved add/remove events in both directions.',
+      'Each transition rebuilds a fresh real LightSet and replays the history (no state copying); canonical form argued in DESIGN.md C13.',
+      'DESIGN.md C13')
+
 NOT_YET = 'check not built yet in this session (design in DESIGN.md); will be claimed when its command exists'
 
 
